@@ -10,6 +10,7 @@ import Coma.Vector
 import Coma.Compare
 import Coma.Indel
 import Coma.Corr
+import Coma.Seeding
 namespace Coma.Driver
 open Coma
 
@@ -128,6 +129,42 @@ def pSeeds (s : String) : SeedTable :=
       | _ => none
     | _ => none
 
+def pPSeeds (s : String) : PTable :=
+  -- entry;entry;…   entry = qid:shift:n@seed&seed…   seed = refId:rev:primary:p1,p2,…
+  if s = "" then [] else (s.splitOn ";").filterMap fun e =>
+    match e.splitOn "@" with
+    | [k, sd] =>
+      match k.splitOn ":" with
+      | [a, b, c] =>
+        let seeds := if sd = "" then [] else (sd.splitOn "&").filterMap fun x =>
+          match x.splitOn ":" with
+          | [r, v, pr, ps] => some ({ refId := pInt r, rev := pBool v, primary := pInt pr, captured := pInts ps } : PSeed)
+          | _ => none
+        some (⟨pInt a, pInt b, pNat c⟩, seeds)
+      | _ => none
+    | _ => none
+
+def pSec (s : String) : SecCfg :=
+  -- res,blur,margin,thr(num/den)
+  match s.splitOn "," with
+  | [a, b, c, d] => { res := pInt a, blur := pInt b, margin := pInt c, thr := pRat d }
+  | _ => {}
+
+/-- canonical form of one secondary peak list: exactly `keep` peaks ⇒ sorted (the delivered order
+    is unspecified when more than `keep` passed, and ascending anyway when exactly `keep` did) -/
+def showSec (keep : Nat) (ps : List Int) : String :=
+  ",".intercalate ((if ps.length = keep then isort id ps else ps).map toString)
+
+def showDerived (keep : Nat) (d : Derived) : String :=
+  ";".intercalate ((List.zip d.table d.status).map fun (e, st) =>
+    s!"{e.1.id}:{e.1.shift}:{e.1.n}@" ++ "&".intercalate ((List.zip e.2 st.2).map fun (sd, x) =>
+      (if x = .mismatch then "MISMATCH:" else "") ++ showSec keep sd.peaks))
+
+def showStatus (d : Derived) : String :=
+  let all := d.status.flatMap (·.2)
+  let n := fun (s : SecStatus) => (all.filter (· = s)).length
+  s!"derived:{n .derived},reordered:{n .reordered},ambiguous:{n .ambiguous},MISMATCH:{n .mismatch}"
+
 def pMode (s : String) : Mode :=
   match s with
   | "single" => .single | "best" => .best | "separate" => .separate | "joined" => .joined | _ => .all
@@ -233,6 +270,30 @@ def step (line : String) : String :=
       let r := pBits (kv.get "R")
       let q := pBits (kv.get "Q")
       ",".intercalate ((corrValid r q).map toString) ++ " N=" ++ ",".intercalate ((norm2 r q).map toString)
+    | "SEQ" =>
+      let stop := if kv.get "stop" = "none" then none else some (kv.int "stop")
+      exc (sequenceOf (kv.int "res") (kv.int "blur") (kv.ints "POS") (kv.int "start") stop) showBits
+    | "XCORR" =>
+      exc (correlate (pBits (kv.get "R")) (pBits (kv.get "Q"))) fun c => ",".intercalate (c.map toString)
+    | "FINDPEAKS" =>
+      ",".intercalate ((findPeaksSecondary (pRat (kv.get "thr")) (kv.ints "X")).map fun p => s!"{p.1}:{p.2}")
+    | "REFINE" =>
+      let c := pSec (kv.get "sec")
+      let ref := pMap (kv.get "REF")
+      let qry := pMap (kv.get "QRY")
+      exc (refineCorrelation c ref qry (kv.bool "rev") (kv.int "peak")) fun corr =>
+        exc (refine c ref qry (kv.bool "rev") (kv.int "peak")) fun pk =>
+          let all := findPeaksSecondary c.thr (corr.map Int.ofNat)
+          let show1 := fun (p : Int × Int) => s!"{p.1}:{p.2}"
+          if (all.length : Int) ≤ c.keep then s!"n={all.length} " ++ ",".intercalate (pk.map show1)
+          else
+            let pk := isort (fun (p : Int × Int) => p.1) pk
+            if boundaryTie c.keep.toNat (all.map (·.2)) then
+              -- numpy may keep any peak of the boundary height: positions only strictly above it
+              let h := minHeight (pk.map (·.2))
+              let strict := pk.filter (fun p => p.2 > h)
+              s!"n=many " ++ ",".intercalate (strict.map show1) ++ s!" +{pk.length - strict.length}@{h}"
+            else s!"n=many " ++ ",".intercalate (pk.map show1)
     | "TOPN" =>
       let bins := kv.ints "B"
       let hs := kv.ints "H"
@@ -292,6 +353,13 @@ def step (line : String) : String :=
       | some c => showCall c
     | "RUN" =>
       let cfg : Cfg := { P := pParams kv, C := pChain kv, maxDifference := kv.int "diff", den := (kv.int "den").toNat }
+      if kv.has "sec" then
+        let c := pSec (kv.get "sec")
+        exc (runProgramSeeded cfg c (pMode (kv.get "mode")) (pCRows (kv.get "REFROWS")) (pCRows (kv.get "QRYROWS"))
+               (kv.ints "rids") (kv.ints "qids") (pPSeeds (kv.get "PSEEDS")) (kv.int "it")) fun (files, d) =>
+          " ".intercalate (files.map fun (n, ls) => s!"FILE{n}=" ++ "\\n".intercalate (ls.map fun l => l.replace "\t" "|"))
+            ++ " SEC=" ++ showDerived c.keep.toNat d ++ " ST=" ++ showStatus d
+      else
       exc (runProgram cfg (pMode (kv.get "mode")) (pCRows (kv.get "REFROWS")) (pCRows (kv.get "QRYROWS"))
              (kv.ints "rids") (kv.ints "qids") (pSeeds (kv.get "SEEDS")) (kv.int "it")) fun files =>
         " ".intercalate (files.map fun (n, ls) => s!"FILE{n}=" ++ "\\n".intercalate (ls.map fun l => l.replace "\t" "|"))
